@@ -787,6 +787,12 @@ func (w *run) api(st *rpcState, name string, f func() error) error {
 	if t0.After(limit) {
 		limit = t0
 	}
+	// time the runtime's spin guard held this goroutine (a busy retry loop is
+	// charged virtual time) is not the callee's lateness
+	if cu := core.ChargedUntil(); cu.After(limit) {
+		limit = cu
+		w.e.Probe("api_call_charged_by_spin_guard_past_deadline")
+	}
 	if t1.After(limit.Add(slack)) {
 		w.e.Violate("blocked_past_deadline", "rpc %d: %s returned %v after the deadline", st.r.ID, name, t1.Sub(st.deadline))
 	}
